@@ -1,6 +1,7 @@
 package main
 
 import (
+	"context"
 	"fmt"
 	"os"
 	"os/exec"
@@ -39,7 +40,9 @@ func raceChild(kind string, seed uint64) {
 			defer wg.Done()
 			defer func() { recover() }()
 			for k := 0; time.Now().Before(stop); k++ {
-				switch r.Intn(6) {
+				switch r.Intn(7) {
+				case 5, 6:
+					tr.(mercure.TransportSubscribers).GetSubscribers()
 				case 0, 1, 2:
 					tr.Dispatch(&mercure.Update{Topics: []string{fmt.Sprintf("t%d", r.Intn(3))}, Event: mercure.Event{Data: "d"}})
 				case 3:
@@ -79,9 +82,19 @@ func runRace(c *h.Ctx, r *h.Report) {
 	for _, kind := range []string{"local", "bolt"} {
 		for i := 0; i < n; i++ {
 			seed := c.Rand.U64()
-			cmd := exec.Command(os.Args[0], "race-child", kind, fmt.Sprint(seed))
+			ctx, cancel := context.WithTimeout(context.Background(), 25*time.Second)
+			cmd := exec.CommandContext(ctx, os.Args[0], "race-child", kind, fmt.Sprint(seed))
 			cmd.Env = append(os.Environ(), "GORACE=halt_on_error=1 exitcode=66")
 			out, err := cmd.CombinedOutput()
+			hung := ctx.Err() != nil
+			cancel()
+			if hung {
+				r.Violate(h.Violation{Key: "C14:operations-hang-under-concurrency",
+					What:   fmt.Sprintf("an unsteered mix of Dispatch / AddSubscriber / Disconnect / RemoveSubscriber / GetSubscribers / Close on the %s transport did not finish within 25 s (0.7 s of work): some operation hangs", kind),
+					Replay: map[string]any{"family": "race", "kind": kind, "seed": seed}})
+
+				continue
+			}
 			r.Evaluations++
 			r.Nontrivial(fmt.Sprint(kind, seed))
 			r.Count("child:" + kind)
